@@ -20,9 +20,9 @@ LAST = None
 TPAT = [[], ['-t', 'a'], ['-t', '!a1'], ['-t', '0'], ['-t', 'b0', '-t', 'a1'], ['-t', '!0', '-t', '!u']]
 LPAT = [[], ['--layer', 'w.A'], ['--layer', '!w.A'], ['-u'], ['-f'], ['--layer', 'UnitTests', '--layer', 'w.B'], ['-u', '-f']]
 LVL = [[], ['--at-level', '2'], ['--all'], ['--only-level', '2'], ['--at-level', '3'], ['--only-level', '1']]
-NAMES = ['u0', 'u1', 'a0', 'a1', 'b0', 'b1']
-LEVELS = {'u0': 1, 'u1': 2, 'a0': 1, 'a1': 2, 'b0': 3, 'b1': 1}
-LNAME = {'u': 'zope.testrunner.layer.UnitTests', 'a': 'w.A', 'b': 'w.B'}
+NAMES = ['u0', 'u1', 'a0', 'a1', 'b0', 'b1', 'x0']
+LEVELS = {'u0': 1, 'u1': 2, 'a0': 1, 'a1': 2, 'b0': 3, 'b1': 1, 'x0': 1}
+LNAME = {'u': 'zope.testrunner.layer.UnitTests', 'a': 'w.A', 'b': 'w.B', 'x': 'w.A2'}
 MODES = FR.MODES + ['list']
 
 
@@ -86,7 +86,7 @@ def selected(mode, t, l, lv, rep2, nest):
     rep2, nest = cb(rep2), cb(nest)
     with untraced():
         tdd = {'A': 2} if mode == 'nie' else {}
-        world = FR.World({n: W.PASS for n in NAMES}, td=tdd, levels=LEVELS, order=['b0', 'u1', 'a1', 'b1', 'a0', 'u0'], nest=nest)
+        world = FR.World({n: W.PASS for n in NAMES}, td=tdd, levels=LEVELS, order=['b0', 'u1', 'x0', 'a1', 'b1', 'a0', 'u0'], nest=nest)
     argv = t + l + lv + (['--repeat', '2'] if rep2 else [])
     ref = FR.run(world, 'seq', argv=argv)
     if mode == 'list':
@@ -148,7 +148,7 @@ def oracle(mode, t, l, lv, rep2, ref, res):
         if len(set(pids)) != 1:
             return 'mode %s: test %s ran in several processes %r' % (mode, n, pids)
     # per-layer order equals the sequential order (default order is discovery order)
-    for ly in 'uab':
+    for ly in 'uabx':
         a = [e[2] for e in ref.trace if e[1] == 'test' and e[2][0] == ly]
         b = [e[2] for e in res.trace if e[1] == 'test' and e[2][0] == ly]
         if a != b:
@@ -164,7 +164,7 @@ def selected_reach(*a):
 _P = [('mode', 'int'), ('t', 'int'), ('l', 'int'), ('lv', 'int'), ('rep2', 'bool'), ('nest', 'bool')]
 _C = ', '.join(n for n, _ in _P)
 _B = '0 <= mode < %d and 0 <= t < %d and 0 <= l < %d and 0 <= lv < %d' % (len(MODES), len(TPAT), len(LPAT), len(LVL))
-_Q = _B + ' and (not rep2 or (t <= 1 and l <= 1)) and nest and ((t == 0) + (l == 0) + (lv == 0) >= 1)'
+_Q = _B + ' and (not rep2 or (t <= 1 and l <= 1)) and ((t == 0) + (l == 0) + (lv == 0) >= 1)'
 
 
 def _v(**kw):
